@@ -83,8 +83,6 @@ def handle (op : String) (args : List String) : String :=
       | none => "none"
       | some arg =>
         "arg " ++ charsToHex arg ++ " found " ++ findWire (c.findCall proj (memIsFile fs) req source) ++
-          " hconv " ++ (match c.findCall proj (memIsFile fs) req source with
-            | .ok f => toString (HConv f) | .error _ => "-") ++
           " again " ++ findWire (t.findCall proj (memIsFile fs) (components arg) source)
     | _, _, _, _, _, _ => "bad-args"
   | "hist", [kind, folder, map, proj, fs, calls] =>
